@@ -483,9 +483,9 @@ func famConc(c *mon.Ctx) {
 			c.Require(name, int64(c.NShards))
 		}
 	}()
-	n := nCases(c, 100, 4000)
+	n := nCases(c, 100, 2500)
 	if mon.RaceEnabled {
-		n = nCases(c, 60, 2000)
+		n = nCases(c, 60, 1200)
 	}
 	c.Family("conc", n, func(k *mon.Case) {
 		r := k.Rand
